@@ -91,18 +91,25 @@ func (e *Env) explicitPanic(x *ast.CallExpr) {
 	e.assume(False)
 }
 
-// seqOf gives (array, offset, length) of a slice or string value.
-func (e *Env) seqOf(v Value) (arr, off, n *Term, ok bool) {
+// srcView gives the source of a copy as (view array, start within the view, length):
+// element t of the source is select(view, rel+t).
+func (e *Env) srcView(v Value) (view, rel, n *Term, ok bool) {
+	var arr *Term
 	switch v.K {
 	case VSlice:
 		if v.ElemU {
 			return nil, nil, nil, false
 		}
-		return Select(e.mem(), v.Ref), v.Off, v.Len, true
+		arr = e.tmp(Select(e.mem(), v.Ref))
 	case VStr:
-		return v.Arr, v.Off, v.Len, true
+		arr = v.Arr
+	default:
+		return nil, nil, nil, false
 	}
-	return nil, nil, nil, false
+	if v.Base != nil {
+		return viewOf(arr, v.Base), v.Rel, v.Len, true
+	}
+	return viewOf(arr, v.Off), IntLit(0), v.Len, true
 }
 
 func (e *Env) appendCall(x *ast.CallExpr, rt types.Type) Value {
@@ -118,16 +125,15 @@ func (e *Env) appendCall(x *ast.CallExpr, rt types.Type) Value {
 		e.errorf("%s: append on slice of opaque elements not modelled", e.w.pos(x.Pos()))
 		return e.unknown(rt, "append")
 	}
-	var tArr, tOff, n *Term
+	var view, rel, n *Term
 	if x.Ellipsis.IsValid() {
 		t := e.freeze(e.expr(x.Args[1]))
 		var ok bool
-		tArr, tOff, n, ok = e.seqOf(t)
+		view, rel, n, ok = e.srcView(t)
 		if !ok {
 			e.errorf("%s: unsupported append source", e.w.pos(x.Pos()))
 			return e.unknown(rt, "append")
 		}
-		tArr = e.tmp(tArr)
 	} else {
 		// individual elements: build a temporary array
 		arr := Lit("((as const (Array Int Int)) 0)", SArr)
@@ -135,13 +141,14 @@ func (e *Env) appendCall(x *ast.CallExpr, rt types.Type) Value {
 			v := e.expr(a)
 			arr = Store(arr, IntLit(int64(i)), v.T)
 		}
-		tArr, tOff, n = e.tmp(arr), IntLit(0), IntLit(int64(len(x.Args)-1))
+		view, rel, n = e.tmp(arr), IntLit(0), IntLit(int64(len(x.Args)-1))
 	}
-	return e.appendSeq(s, tArr, tOff, n, rt)
+	return e.appendSeq(s, view, rel, n, rt)
 }
 
-// appendSeq implements append(s, t...) on the byte memory.
-func (e *Env) appendSeq(s Value, tArr, tOff, n *Term, rt types.Type) Value {
+// appendSeq implements append(s, t...) on the byte memory; the appended
+// elements are select(view, rel+0..n-1).
+func (e *Env) appendSeq(s Value, view, rel, n *Term, rt types.Type) Value {
 	fits := e.tmp(Le(Add(s.Len, n), s.Cap))
 	oldA := e.tmp(Select(e.mem(), s.Ref))
 	newRef := e.tmp(Ite(fits, s.Ref, e.nextRef()))
@@ -156,12 +163,29 @@ func (e *Env) appendSeq(s Value, tArr, tOff, n *Term, rt types.Type) Value {
 	lo := Add(newOff, s.Len)
 	inNew := And(Le(lo, k), Lt(k, Add(lo, n)))
 	e.assume(Forall([]*Term{k}, And(
-		Implies(inNew, Eq(Select(newA, k), Select(tArr, Add(tOff, Sub(k, lo))))),
+		Implies(inNew, Eq(Select(newA, k), Select(view, Add(rel, Sub(k, lo))))),
 		Implies(And(fits, Not(inNew)), Eq(Select(newA, k), Select(oldA, k))),
 		Implies(And(Not(fits), Le(IntLit(0), k), Lt(k, s.Len)), Eq(Select(newA, k), Select(oldA, Add(s.Off, k)))))))
 	e.assign("Mem", SMem, Store(e.mem(), newRef, newA))
 	e.assign("$nextRef", SInt, Ite(fits, e.nextRef(), Add(e.nextRef(), IntLit(1))))
 	e.noteUpdate(oldA, newA, Ite(fits, lo, IntLit(0)), fits)
+	// consequences of the definition above, stated on the views (instantiation help only):
+	// the old elements are kept, the new elements are the source's.
+	{
+		t := Bound("t$", SInt)
+		nv, ov := viewOf(newA, newOff), viewOf(oldA, s.Off)
+		e.assume(Forall([]*Term{t}, Implies(And(Le(IntLit(0), t), Lt(t, s.Len)), Eq(Select(nv, t), Select(ov, t)))))
+		e.assume(Forall([]*Term{t}, Implies(And(Le(s.Len, t), Lt(t, newLen)), Eq(Select(nv, t), Select(view, Add(rel, Sub(t, s.Len)))))))
+	}
+	if e.useDep {
+		// LemmaDepCong between the new view and its sources: the old contents (when reallocated)
+		// and, when the destination was empty, the appended sequence itself.
+		j := Bound("j$", SInt)
+		e.assume(Implies(Not(fits), Forall([]*Term{j}, Implies(And(Le(IntLit(0), j), Le(j, s.Len)),
+			Eq(App("dep", SInt, newA, j), App("dep", SInt, viewOf(oldA, s.Off), j))))))
+		e.assume(Implies(Eq(s.Len, IntLit(0)), Forall([]*Term{j}, Implies(And(Le(IntLit(0), j), Le(j, n)),
+			Eq(App("dep", SInt, viewOf(newA, newOff), j), App("dep", SInt, viewOf(view, rel), j))))))
+	}
 	return Value{K: VSlice, Ref: newRef, Off: newOff, Len: newLen, Cap: newCap, Typ: rt}
 }
 
@@ -177,19 +201,18 @@ func (e *Env) noteUpdate(oldA, newA, bound, cond *Term) {
 var prefixFns []func(e *Env, oldA, newA, bound, cond *Term)
 
 func (e *Env) copyCall(dst, src Value, rt types.Type) Value {
-	sArr, sOff, sLen, ok := e.seqOf(src)
+	sView, sRel, sLen, ok := e.srcView(src)
 	if !ok || dst.K != VSlice || dst.ElemU {
 		e.errorf("unsupported copy")
 		return e.unknown(rt, "copy")
 	}
-	sArr = e.tmp(sArr)
 	n := e.tmp(Ite(Le(dst.Len, sLen), dst.Len, sLen))
 	oldA := e.tmp(Select(e.mem(), dst.Ref))
 	newA := e.fresh("cparr", SArr)
 	k := Bound("k$", SInt)
 	in := And(Le(dst.Off, k), Lt(k, Add(dst.Off, n)))
 	e.assume(Forall([]*Term{k}, And(
-		Implies(in, Eq(Select(newA, k), Select(sArr, Add(sOff, Sub(k, dst.Off))))),
+		Implies(in, Eq(Select(newA, k), Select(sView, Add(sRel, Sub(k, dst.Off))))),
 		Implies(Not(in), Eq(Select(newA, k), Select(oldA, k))))))
 	e.assign("Mem", SMem, Store(e.mem(), dst.Ref, newA))
 	e.noteUpdate(oldA, newA, dst.Off, True)
